@@ -60,7 +60,9 @@ impl Rep {
     /// every way this representation maps a point / a direction: (label, result)
     pub fn act(&self, p: [f64; 3], point: bool) -> Vec<(&'static str, [f64; 3])> {
         let pf = Vec3::new(p[0] as f32, p[1] as f32, p[2] as f32);
-        let pa = Vec3A::from(pf);
+        // a Vec3A as users obtain them: from a Vec3, or as the first three lanes of a Vec4 (whatever the fourth holds)
+        let junk = [1.0f32, 0.0, -7.5e3, f32::NAN, f32::INFINITY, 1e-30][(vcommon::rng::mix(p[0].to_bits(), 5) % 6) as usize];
+        let pa = if vcommon::rng::mix(p[1].to_bits(), 9) & 1 == 0 { Vec3A::from(pf) } else { Vec3A::from_vec4(Vec4::new(pf.x, pf.y, pf.z, junk)) };
         let pd = DVec3::new(p[0], p[1], p[2]);
         let o = |v: Vec3| [v.x as f64, v.y as f64, v.z as f64];
         let oa = |v: Vec3A| [v.x as f64, v.y as f64, v.z as f64];
@@ -537,6 +539,106 @@ fn two_d(mon: &mut Monitor) {
     }
 }
 
+/// Mixed products and composition for every pair of interchangeable types: `X * Y` where one operand is an affine type and the
+/// other its homogeneous matrix, in both orders, must equal the product of the two converted matrices; the same for
+/// 2-D and f64 forms, and `from(a*b) = from(a)*from(b)` for the 2-D and f64 families (3-D f32 is in `laws`).
+fn mixed_products(mon: &mut Monitor) {
+    let iters = mon.n(3_000, 300_000);
+    if let Some(mut c) = mon.begin("laws", "mixed affine/matrix products and composition, all families") {
+        let mut rng = Rng::new(mon.op_seed("laws", "mixed"));
+        let e32 = f32::EPSILON as f64;
+        let e64 = f64::EPSILON;
+        fn cmp(c: &mut OpCtx, name: &'static str, n: usize, got: &[f64], a: &[f64], b: &[f64], eps: f64, inp: &dyn Fn() -> String) {
+            let ra: M<f64> = M::from_cols(n, a);
+            let rb: M<f64> = M::from_cols(n, b);
+            let want = ra.mul(&rb);
+            let sc = ra.abs().mul(&rb.abs());
+            c.event(vcommon::rng::hash_str(name), true);
+            for k in 0..n * n {
+                let e = (got[k] - want.a[k / n][k % n]).abs();
+                let t = 12.0 * eps * sc.a[k / n][k % n] + 1e-300;
+                c.ratio_t("mixed product entry", e / t);
+                if !(e <= t) {
+                    if c.wants_witness("law", &["composition", name]) {
+                        c.violation("law", &["composition", name], inp(), format!("{:?}", got), format!("{:?}", want.to_f64()), format!("entry {} (column-major)", k));
+                    } else {
+                        c.st.violations += 1;
+                    }
+                    break;
+                }
+            }
+        }
+        let f = |v: &[f32]| -> Vec<f64> { v.iter().map(|x| *x as f64).collect() };
+        for it in 0..iters {
+            // 3-D
+            let sa = gen_seed(&mut rng, it * 5 + 3);
+            let sb = gen_seed(&mut rng, it * 5 + [2u64, 3, 4][(it % 3) as usize]);
+            let (a, b) = (match build(&sa, K::A3) { Rep::A3(a) => a, _ => unreachable!() }, match build(&sb, K::A3) { Rep::A3(a) => a, _ => unreachable!() });
+            let (ma, mb) = (Mat4::from(a), Mat4::from(b));
+            let (fa, fb) = (f(&ma.to_cols_array()), f(&mb.to_cols_array()));
+            let inp = || format!("a={:?} b={:?}", a, b);
+            cmp(&mut c, "Affine3A * Mat4", 4, &f(&(a * mb).to_cols_array()), &fa, &fb, e32, &inp);
+            cmp(&mut c, "Mat4 * Affine3A", 4, &f(&(ma * b).to_cols_array()), &fa, &fb, e32, &inp);
+            cmp(&mut c, "Mat4::from(Affine3A * Affine3A)", 4, &f(&Mat4::from(a * b).to_cols_array()), &fa, &fb, e32, &inp);
+            let (da, db) = (a.as_daffine3(), b.as_daffine3());
+            let (dma, dmb) = (DMat4::from(da), DMat4::from(db));
+            cmp(&mut c, "DAffine3 * DMat4", 4, &(da * dmb).to_cols_array(), &fa, &fb, e64, &inp);
+            cmp(&mut c, "DMat4 * DAffine3", 4, &(dma * db).to_cols_array(), &fa, &fb, e64, &inp);
+            cmp(&mut c, "DMat4::from(DAffine3 * DAffine3)", 4, &DMat4::from(da * db).to_cols_array(), &fa, &fb, e64, &inp);
+            cmp(&mut c, "DMat4 * DMat4 (from affine)", 4, &(dma * dmb).to_cols_array(), &fa, &fb, e64, &inp);
+            // Mat3A / Mat3 views of the linear part
+            let (l3a, l3b) = (Mat3::from_cols_array(&core::array::from_fn(|i| sa.lin[i] as f32)), Mat3::from_cols_array(&core::array::from_fn(|i| sb.lin[i] as f32)));
+            let (fl3a, fl3b) = (f(&l3a.to_cols_array()), f(&l3b.to_cols_array()));
+            cmp(&mut c, "Mat3A::from(Mat3) * Mat3A::from(Mat3)", 3, &f(&(Mat3A::from(l3a) * Mat3A::from(l3b)).to_cols_array()), &fl3a, &fl3b, e32, &inp);
+            cmp(&mut c, "Mat3::from(Mat3A * Mat3A)", 3, &f(&Mat3::from(Mat3A::from(l3a) * Mat3A::from(l3b)).to_cols_array()), &fl3a, &fl3b, e32, &inp);
+            cmp(&mut c, "Mat4::from_mat3(a) * Mat4::from_mat3(b) block", 3, &f(&Mat3::from_mat4(Mat4::from_mat3(l3a) * Mat4::from_mat3a(Mat3A::from(l3b))).to_cols_array()), &fl3a, &fl3b, e32, &inp);
+            // 2-D
+            let mk2 = |r: &mut Rng| {
+                let ang = r.range(-6.3, 6.3) as f32;
+                let sc = Vec2::new(r.logmag(-2.0, 2.0) as f32, r.logmag(-2.0, 2.0) as f32);
+                let t = Vec2::new(r.logmag(-3.0, 5.0) as f32, r.logmag(-3.0, 5.0) as f32);
+                Affine2::from_scale_angle_translation(sc, ang, t)
+            };
+            let (p, q) = (mk2(&mut rng), mk2(&mut rng));
+            let (mp, mq) = (Mat3::from(p), Mat3::from(q));
+            let (mpa, mqa) = (Mat3A::from(p), Mat3A::from(q));
+            let (fp, fq) = (f(&mp.to_cols_array()), f(&mq.to_cols_array()));
+            let inp2 = || format!("p={:?} q={:?}", p, q);
+            cmp(&mut c, "Affine2 * Mat3", 3, &f(&(p * mq).to_cols_array()), &fp, &fq, e32, &inp2);
+            cmp(&mut c, "Mat3 * Affine2", 3, &f(&(mp * q).to_cols_array()), &fp, &fq, e32, &inp2);
+            cmp(&mut c, "Affine2 * Mat3A", 3, &f(&(p * mqa).to_cols_array()), &fp, &fq, e32, &inp2);
+            cmp(&mut c, "Mat3A * Affine2", 3, &f(&(mpa * q).to_cols_array()), &fp, &fq, e32, &inp2);
+            cmp(&mut c, "Mat3::from(Affine2 * Affine2)", 3, &f(&Mat3::from(p * q).to_cols_array()), &fp, &fq, e32, &inp2);
+            cmp(&mut c, "Mat3A::from(Affine2 * Affine2)", 3, &f(&Mat3A::from(p * q).to_cols_array()), &fp, &fq, e32, &inp2);
+            let (dp, dq) = (p.as_daffine2(), q.as_daffine2());
+            let (dmp, dmq) = (DMat3::from(dp), DMat3::from(dq));
+            cmp(&mut c, "DAffine2 * DMat3", 3, &(dp * dmq).to_cols_array(), &fp, &fq, e64, &inp2);
+            cmp(&mut c, "DMat3 * DAffine2", 3, &(dmp * dq).to_cols_array(), &fp, &fq, e64, &inp2);
+            cmp(&mut c, "DMat3::from(DAffine2 * DAffine2)", 3, &DMat3::from(dp * dq).to_cols_array(), &fp, &fq, e64, &inp2);
+            // 2-D inverse: Affine2 inverse converts to the Mat3 inverse (compared through the action on a probe)
+            let probe = Vec2::new(0.3, -1.7);
+            let img = p.transform_point2(probe);
+            let back = [("Mat3::from(Affine2::inverse)", Mat3::from(p.inverse()).transform_point2(img)), ("Mat3::from(Affine2).inverse", Mat3::from(p).inverse().transform_point2(img)), ("Mat3A::from(Affine2).inverse", Mat3A::from(p).inverse().transform_point2(img))];
+            let lin: M<f64> = M::from_cols(2, &f(&p.matrix2.to_cols_array()));
+            let cond = lin.abs().mul(&lin.inverse().abs()).max_abs() * 2.0 + 1.0;
+            let tscale = (p.translation.abs().max_element() as f64 + 4.0) * cond;
+            for (nm, v) in back {
+                let e = (v - probe).abs().max_element() as f64;
+                c.ratio_t("inverse_action 2-D", e / (64.0 * e32 * tscale));
+                if !(e <= 64.0 * e32 * tscale) {
+                    if c.wants_witness("law", &["inverse", nm]) {
+                        c.violation("law", &["inverse", nm], format!("p={:?}", p), format!("{:?}", v), format!("{:?}", probe), "inverse does not undo the transform".into());
+                    } else {
+                        c.st.violations += 1;
+                    }
+                }
+            }
+        }
+        c.sample("X*Y for X,Y in {Affine3A,Mat4}, {Affine2,Mat3,Mat3A}, f64 forms, both operand orders; from(a*b)=from(a)*from(b); 2-D inverse".into());
+        mon.end(c);
+    }
+}
+
 fn canaries(mon: &mut Monitor) {
     mon.canary("Mat3::from_mat4 returning the transposed block", |m| {
         // run the path checker with a broken edge table is intrusive; emulate on the law checker:
@@ -560,5 +662,6 @@ pub fn run(mon: &mut Monitor) {
     run_paths(mon);
     roundtrip(mon);
     laws(mon);
+    mixed_products(mon);
     two_d(mon);
 }
